@@ -6,6 +6,7 @@ The variant bank lives in /verif:
   seeded_fixes/<commit>/patch.diff  each `fix:` commit of /repo, reverted
   benign/<id>/patch.diff            behaviour-preserving refactorings (must stay silent)
   seeded_neutralised/<id>/…         changes that no longer break anything (must stay silent)
+  evolutions/<id>/patch.diff        well-formed evolutions of the shipped configuration (silent, except documented ones)
   repaired/<id>/patch.diff          seeded commits of round 4 with the regression taken out (must stay silent, except for the
                                     conservative alarms documented per variant in its meta.json)
 Each meta.json lists ``expected_checks``: the properties whose check is known to fire on that variant.
@@ -62,18 +63,19 @@ def _variants(prop: str) -> List[Tuple[str, str, str]]:
                 out.append((f"{dn}/{v}", pp, "silent"))
     # repaired commits: silent, except where meta.json documents a conservative alarm of this property (then either outcome is
     # accepted: the alarm is a known over-approximation, its disappearance an improvement)
-    base = os.path.join(VERIF, "repaired")
-    for v in sorted(os.listdir(base)) if os.path.isdir(base) else []:
-        pp = os.path.join(base, v, "patch.diff")
-        mp = os.path.join(base, v, "meta.json")
-        if not os.path.exists(pp):
-            continue
-        try:
-            meta = json.load(open(mp))
-        except Exception:
-            meta = {}
-        documented = prop in (meta.get("conservative_alarm") or {}).get("checks", [])
-        out.append((f"repaired/{v}", pp, "either" if documented else "silent"))
+    for bank in ("repaired", "evolutions"):
+        base = os.path.join(VERIF, bank)
+        for v in sorted(os.listdir(base)) if os.path.isdir(base) else []:
+            pp = os.path.join(base, v, "patch.diff")
+            mp = os.path.join(base, v, "meta.json")
+            if not os.path.exists(pp):
+                continue
+            try:
+                meta = json.load(open(mp))
+            except Exception:
+                meta = {}
+            documented = prop in (meta.get("conservative_alarm") or {}).get("checks", [])
+            out.append((f"{bank}/{v}", pp, "either" if documented else "silent"))
     return out
 
 
